@@ -4,12 +4,14 @@ import (
 	"context"
 	"fmt"
 	"sync"
+	"time"
 
 	goat "github.com/avos-io/goat"
 	"github.com/avos-io/goat/gen/goatorepo"
-	"google.golang.org/protobuf/proto"
 	"goatverif/quiesce"
 	"goatverif/wire"
+	"google.golang.org/grpc/metadata"
+	"google.golang.org/protobuf/proto"
 
 	"google.golang.org/grpc"
 	"google.golang.org/grpc/codes"
@@ -23,16 +25,16 @@ import (
 // C11: an abandoned stream never wedges its connection.
 
 type c11Case struct {
-	Mode     string `json:"mode"` // handler-returns-early | caller-cancels-unread | caller-stops-reading-then-cancels
-	Kind     string `json:"kind"`
-	K        int    `json:"k_consumed"`
-	N        int    `json:"n_sent"`
-	M        int    `json:"m_unread"`
-	Others   int    `json:"other_rpcs_in_flight"`
-	HookPlan string `json:"hook_plan"` // none | jitter | park-unregister | park-client-exit
-	HandlerErr bool `json:"handler_returns_error"`
-	Cap      int    `json:"link_capacity"`
-	GMP      int    `json:"gomaxprocs"`
+	Mode       string `json:"mode"` // handler-returns-early | caller-cancels-unread | caller-stops-reading-then-cancels
+	Kind       string `json:"kind"`
+	K          int    `json:"k_consumed"`
+	N          int    `json:"n_sent"`
+	M          int    `json:"m_unread"`
+	Others     int    `json:"other_rpcs_in_flight"`
+	HookPlan   string `json:"hook_plan"` // none | jitter | park-unregister | park-client-exit
+	HandlerErr bool   `json:"handler_returns_error"`
+	Cap        int    `json:"link_capacity"`
+	GMP        int    `json:"gomaxprocs"`
 }
 
 func c11List(tier string) []c11Case {
@@ -85,6 +87,10 @@ func c11List(tier string) []c11Case {
 			i++
 			out = append(out, c11Case{Mode: "open-reported-failed-but-delivered", Kind: []string{"bidi", "client", "server"}[i%3], M: m, Cap: []int{0, 4}[i%2], GMP: []int{1, 4, 16}[i%3]})
 		}
+	}
+	for k := 0; k < 4*reps; k++ {
+		i++
+		out = append(out, c11Case{Mode: "live-handler-until-deadline", Kind: []string{"bidi", "client"}[k%2], M: k % 4, Cap: []int{0, 4}[i%2], GMP: []int{1, 4, 16}[i%3]})
 	}
 	for k := 0; k < 6*reps; k++ {
 		out = append(out, c11Case{Mode: "websocket-cancel-mid-write", Kind: "ws"})
@@ -178,6 +184,79 @@ func newFloodPeer(ctx context.Context, l *wire.Link) *floodPeer {
 		}
 	}()
 	return fp
+}
+
+// c11LiveHandlerDeadline: the handler takes one message, then stops consuming and gives up only
+// when its context ends; the caller - who attached metadata and a (real) deadline - keeps sending.
+// That blocks the connection by design until the deadline, which the server must have received: once
+// it has passed, the connection serves again. Real timers are involved, so the verdict is taken only
+// well after the deadline (1 s for a 50 ms deadline), when no timer of the scenario is pending.
+func c11LiveHandlerDeadline(tier string, seed int64, idx int, c c11Case, res *core.Result) {
+	setGMP(c.GMP)
+	h := bed.NewHooks()
+	h.Install()
+	b := bed.New(bed.Opts{Cap: c.Cap, Serialise: idx%2 == 0})
+	cc := b.Conns[0]
+	tag := fmt.Sprintf("lhd%d", idx)
+	b.Impl.SetStream(tag, func(t, k string, ss grpc.ServerStream) error {
+		ss.RecvMsg(new(svc.BV))
+		<-ss.Context().Done()
+		return ss.Context().Err()
+	})
+	base := context.Background()
+	if c.M%2 == 0 {
+		base = metadata.AppendToOutgoingContext(base, "request-id", "abc", "trace-bin", "\x01\x02")
+	}
+	ctx, cancel := context.WithTimeout(base, 50*time.Millisecond)
+	defer cancel()
+	var w Waiter
+	w.Add(1)
+	go func() {
+		defer w.Done()
+		s, err := svc.Open(ctx, cc, c.Kind, tag, nil)
+		if err != nil {
+			return
+		}
+		for k := 0; k < 3+c.M; k++ {
+			if s.Send([]byte("more")) != nil {
+				break
+			}
+		}
+		s.Recv()
+	}()
+	time.Sleep(time.Second)
+	st, snap := settle(tier, func() bool { return w.Left() == 0 })
+	if st == "stuck" {
+		res.ViolateD("deadline-call-hangs-after-abandoned-stream/live-handler", map[string]any{"goat_goroutines": goatParked(snap)}, "a caller with a 50 ms deadline has not returned a second later (final state)")
+	}
+	pdone := make(chan error, 1)
+	go func() {
+		g, err := svc.Invoke(context.Background(), cc, "probe", []byte("probe"))
+		if err == nil && string(g) != "probe" {
+			err = fmt.Errorf("wrong reply %q", g)
+		}
+		pdone <- err
+	}()
+	var perr error
+	pgot := false
+	stp, snapp := settle(tier, func() bool {
+		select {
+		case perr = <-pdone:
+			pgot = true
+		default:
+		}
+		return pgot
+	})
+	if stp == "stuck" {
+		res.ViolateD("connection-wedged-after-abandoned-stream/"+c.Mode, map[string]any{"goat_goroutines": goatParked(snapp)}, "a handler that stopped consuming and waits for its context, a caller with metadata=%v and a 50 ms deadline that kept sending: a second after the deadline a probe call never completes (final state) - the server never learnt the deadline", c.M%2 == 0)
+	} else if stp == "ok" && perr != nil {
+		res.Violate("rpc-fails-after-abandoned-stream", "probe failed after %s: %v", c.Mode, perr)
+	} else if stp == "ok" {
+		res.Stat("probes_completed", 1)
+		res.Stat("live_handler_deadline_cases", 1)
+	}
+	res.Stat("abandonments", 1)
+	finish(tier, b, h, res)
 }
 
 // c11OpenFailsDelivered: the transport reports the write of a stream's opening envelope as failed
@@ -358,6 +437,11 @@ func c11Scripted(tier string, seed int64, idx int, c c11Case, res *core.Result) 
 func c11Run(tier string, seed int64, idx int) *core.Result {
 	list := c11List(tier)
 	c := list[idx]
+	if c.Mode == "live-handler-until-deadline" {
+		res := &core.Result{Verdict: core.Held, Sample: c, Sig: fmt.Sprintf("%+v/%d", c, idx), NonTrivial: true}
+		c11LiveHandlerDeadline(tier, seed, idx, c, res)
+		return res
+	}
 	if c.Mode == "open-reported-failed-but-delivered" {
 		res := &core.Result{Verdict: core.Held, Sample: c, Sig: fmt.Sprintf("%+v/%d", c, idx), NonTrivial: true}
 		c11OpenFailsDelivered(tier, seed, idx, c, res)
@@ -612,13 +696,15 @@ func c11Run(tier string, seed int64, idx int) *core.Result {
 
 func init() {
 	core.Register(&core.Prop{
-		ID:    "C11",
-		Level: "exploration",
-		Rule:  "cases = {handler returns after k of n client messages, all 0<=k<n<=8 (server-stream n<=3)} + {caller cancels with m in 0..8 responses unread} x stream kind x other RPCs in flight {quick 0,2; thorough 0..4} x hook plan {none, rendezvous parking the server's stream unregistration until nothing else moves; thorough adds jitter and parking the client stream's teardown}; plus scripted-server families (the caller is cancelled while its send is blocked by transport back-pressure and m in 3..6 responses are unread; the first response cannot be decoded, the caller stops receiving without cancelling, and m-1 more responses follow); a family in which the transport reports the write of a stream's opening envelope as failed although it was delivered, so that the handler sends 2..5 messages to an id the caller has given up; and a family over the shipped websocket transport on loopback sockets in which a caller gives up (cancel / deadline / stream send) while its 64 KiB frame is half-way onto the socket, with 2 calls in flight (wall-clock bounds there are inconclusive, only failed calls are violations); every case ends with a no-deadline probe and a manual-deadline probe. All cases are distinct parameter tuples and all are non-trivial (each abandons a stream).",
-		Plan:  func(tier string, seed int64) int { return len(c11List(tier)) },
-		Run:   c11Run,
+		ID:          "C11",
+		Level:       "exploration",
+		Rule:        "cases = {handler returns after k of n client messages, all 0<=k<n<=8 (server-stream n<=3)} + {caller cancels with m in 0..8 responses unread} x stream kind x other RPCs in flight {quick 0,2; thorough 0..4} x hook plan {none, rendezvous parking the server's stream unregistration until nothing else moves; thorough adds jitter and parking the client stream's teardown}; plus scripted-server families (the caller is cancelled while its send is blocked by transport back-pressure and m in 3..6 responses are unread; the first response cannot be decoded, the caller stops receiving without cancelling, and m-1 more responses follow); a family in which the transport reports the write of a stream's opening envelope as failed although it was delivered, so that the handler sends 2..5 messages to an id the caller has given up; a family with real timers in which the handler stops consuming and waits for its context while the caller (50 ms deadline, with and without request metadata) keeps sending, judged one second after the deadline; and a family over the shipped websocket transport on loopback sockets in which a caller gives up (cancel / deadline / stream send) while its 64 KiB frame is half-way onto the socket, with 2 calls in flight (wall-clock bounds there are inconclusive, only failed calls are violations); every case ends with a no-deadline probe and a manual-deadline probe. All cases are distinct parameter tuples and all are non-trivial (each abandons a stream).",
+		Plan:        func(tier string, seed int64) int { return len(c11List(tier)) },
+		Run:         c11Run,
 		Assumptions: []string{"final state = every goroutine durably blocked in a consistent stop-the-world snapshot (channel-only scenario, manual deadlines, no real timers)"},
-		RequiredStats: func(string) []string { return []string{"probes_completed", "rendezvous_fired", "hook:srv.beforeStream", "scripted_abandonments", "ws_cancel_mid_write_cases", "opens_failed_but_delivered"} },
+		RequiredStats: func(string) []string {
+			return []string{"probes_completed", "rendezvous_fired", "hook:srv.beforeStream", "scripted_abandonments", "ws_cancel_mid_write_cases", "opens_failed_but_delivered", "live_handler_deadline_cases"}
+		},
 		Exhaustive: func(string) bool { return false },
 	})
 }
